@@ -25,6 +25,8 @@ def scenario_families(rnd, tier):
         (B2, [1, 3, 5], "", "three parts zstd"),
         (B1, [1, 3], "quoted=1 extra=1", "quoted boundary, extra part headers"),
         (B1, [2, 4], "leadcrlf=0 lower=1", "no leading CRLF, lower-case header"),
+        (B1, [1, 4], "fold=1", "Content-Type folded over two header lines"),
+        (B1, [2, 3], "fold=1 quoted=1", "Content-Type folded, quoted boundary"),
         (B1, [1, 3], "corrupt=3", "first part corrupted"),
         (B1, [1, 3, 5], "corrupt=%d" % (len(B1) and 30), "second part corrupted"),
         (B1, [2], "corrupt=0", "plain range corrupted"),
